@@ -1,0 +1,41 @@
+//go:build verif
+
+package appctl
+
+import (
+	pb "github.com/enfein/mieru/v3/pkg/appctl/appctlpb"
+)
+
+// Exports for the external verification harness (property C20). Add-only; compiled only with -tags verif.
+
+// VerifMergeServerConfig exposes mergeServerConfig (dst is modified in place).
+func VerifMergeServerConfig(dst, src *pb.ServerConfig) error { return mergeServerConfig(dst, src) }
+
+// VerifMergeClientConfigByProfile exposes mergeClientConfigByProfile (dst is modified in place).
+func VerifMergeClientConfigByProfile(dst, src *pb.ClientConfig) { mergeClientConfigByProfile(dst, src) }
+
+// VerifResetClientConfigPath forgets the cached client config location so that the
+// MIERU_CONFIG_FILE / MIERU_CONFIG_JSON_FILE environment variables decide again.
+func VerifResetClientConfigPath() {
+	cachedClientConfigDir = ""
+	cachedClientConfigFilePath = ""
+}
+
+// VerifSetServerConfigPath points the server config file somewhere else (tests do the same
+// by assigning the package variables).
+func VerifSetServerConfigPath(dir, file string) {
+	cachedServerConfigDir = dir
+	cachedServerConfigFilePath = file
+}
+
+// VerifClientConfigFilePath exposes clientConfigFilePath.
+func VerifClientConfigFilePath() (string, int, error) {
+	p, t, err := clientConfigFilePath()
+	return p, int(t), err
+}
+
+// VerifServerConfigFilePath exposes serverConfigFilePath.
+func VerifServerConfigFilePath() (string, int, error) {
+	p, t, err := serverConfigFilePath()
+	return p, int(t), err
+}
